@@ -143,7 +143,8 @@ def depends(
         for dep in deps:
             grouped[id(dep.owner)].append(dep)
         for group in grouped.values():
-            group[0].owner.param.watch(cb, [dep.name for dep in group])
+            # (a Parameter named twice is still one dependency)
+            group[0].owner.param.watch(cb, list(dict.fromkeys(dep.name for dep in group)))
 
     _dinfo = getattr(func, '_dinfo', {})
     _dinfo.update({'dependencies': dependencies,
